@@ -156,6 +156,35 @@ class History:
             k = self.rng.randint(0, n)
             tm.move_triggers(ids, k); self._rec("move", ids, k)
 
+    def op_component_order(self):
+        """a custom display order of the effects / conditions of one trigger (what the in-game editor stores after dragging)"""
+        tm = self.scn.trigger_manager
+        cands = [(i, t) for i, t in enumerate(tm.triggers) if len(t.effects) > 1 or len(t.conditions) > 1]
+        if not cands:
+            return
+        i, t = self.rng.choice(cands)
+        if len(t.effects) > 1 and (len(t.conditions) < 2 or self.rng.random() < 0.6):
+            p = list(range(len(t.effects))); self.rng.shuffle(p)
+            t.effect_order = p; self._rec("effect_order", i, p)
+        else:
+            p = list(range(len(t.conditions))); self.rng.shuffle(p)
+            t.condition_order = p; self._rec("condition_order", i, p)
+
+    def op_write_hook(self):
+        """register (once per scenario object) an on-write hook that edits the scenario through the managers: what it does is
+        part of the save that runs it"""
+        if getattr(self, "_hooked", False):
+            return
+        self._hooked = True
+        n = [0]
+
+        def hook(scn):
+            n[0] += 1
+            scn.message_manager.hints = f"hook ran {n[0]}"
+            scn.trigger_manager.add_trigger(f"hook trigger {n[0]}")
+        self.scn.on_write(hook)
+        self._rec("on_write_hook")
+
     def op_copy(self):
         rng = self.rng
         tm = self.scn.trigger_manager
@@ -357,7 +386,7 @@ class History:
 
     OPS = [("op_add_trigger", 8), ("op_add_effect", 5), ("op_add_condition", 3), ("op_remove_trigger", 4), ("op_remove_component", 3),
            ("op_set_trigger_attr", 4), ("op_reorder", 3), ("op_copy", 3), ("op_variant", 1), ("op_add_variable", 2), ("op_add_unit", 6), ("op_remove_unit", 3), ("op_set_unit", 4),
-           ("op_map", 5), ("op_player", 8), ("op_active_players", 1), ("op_message", 3), ("op_option", 3), ("op_xs", 1), ("op_inplace_list", 5)]
+           ("op_map", 5), ("op_player", 8), ("op_active_players", 1), ("op_message", 3), ("op_option", 3), ("op_xs", 1), ("op_inplace_list", 5), ("op_component_order", 3), ("op_write_hook", 1)]
 
     def step(self):
         ops = [o for o, w in self.OPS for _ in range(w) if self.allow_components or o not in ("op_add_effect", "op_add_condition", "op_remove_component")]
